@@ -333,6 +333,8 @@ class CallMixin:
         s2 = st.copy()
         for lbl, f in k.requires_:
             s2.assume(f(pre))
+        for lbl, f in k.defines_:
+            s2.assume(f(pre))
         old_heap = dict(s2.heap)
         for spec, refs in k.modifies_:
             for key in self.heap_keys_of(s2.heap, spec):
@@ -531,8 +533,14 @@ class CallMixin:
         if name in ("dict.items", "dict.keys", "dict.values"):
             return self.val(st, Val(Ty("dictiter"), None, items=[recv], aux=name.split(".")[1]))
         if name == "set.add":
+            # a set is a map key -> first element inserted under that key (keys follow the element class's __eq__/__hash__)
             s = st.copy()
-            self.dict_set(s, Val(V.DictT(recv.ty.args[0], BOOL), recv.t), args[0], V.boolv(True))
+            et = recv.ty.args[0]
+            asdict = Val(V.DictT(et, et), recv.t)
+            has = self.dict_has(s.heap, asdict, args[0])
+            old = self.dict_get(s.heap, asdict, args[0]) if et.kind != "opt" else None
+            keep = self.merge_vals(has, old, args[0]) if old is not None else None
+            self.dict_set(s, asdict, args[0], keep if keep is not None else args[0])
             return self.val(s, V.NONEV)
         if name in ("str.lower", "str.upper", "str.strip"):
             lit = V.lit_of(recv.t)
@@ -640,6 +648,9 @@ class CallMixin:
                 return self.val(st, Val(FLOAT, z3.ToReal(v.t)))
         if q == "builtins.bool":
             return self.val(st, V.boolv(self.truth(args[0], st)))
+        if q == "builtins.set" and not args:
+            s = st.copy()
+            return self.val(s, self.new_dict_typed(s, V.SetT(ANY)))
         if q == "builtins.list":
             if not args:
                 s = st.copy()
@@ -678,6 +689,8 @@ class CallMixin:
             r = self.allocate(s, args[0].ty, "sorted")
             self.sort_model(s, args[0], r, kwargs.get("key"), fr, node)
             return self.val(s, r)
+        if q == "builtins.sorted" and len(args) == 1 and args[0].ty.kind == "set" and not (set(kwargs) - {"key", "reverse"}):
+            return self.sorted_set(args[0], kwargs.get("key"), kwargs.get("reverse"), st, fr, node)
         if q == "builtins.sorted" or q == "builtins.max" or q == "builtins.min":
             raise OutOfSubset(f"{name}() without contract")
         if q == "copy.copy":
@@ -791,6 +804,41 @@ class CallMixin:
         if "A-SORT" not in " ".join(self.notes):
             self.notes.append("A-SORT: list.sort/sorted = stable sort by key (same length, ordered, permutation, stable, identity on an ordered list)")
 
+    def sorted_set(self, src: Val, keyf: Optional[Val], reverse: Optional[Val], st: State, fr: Frame, node) -> List:
+        """sorted(S, key=f[, reverse=b]) for a set S: a fresh list holding exactly the elements of S, once each, ordered by key.
+        Ghost function g maps every member key to its position."""
+        s = st.copy()
+        et = src.ty.args[0]
+        asdict = Val(V.DictT(et, et), src.t)
+        r = self.allocate(s, V.ListT(et), "sortedset")
+        n = self.coll_len(s.heap, asdict)
+        new = z3.Const(V.fresh_name("sset_el"), z3.ArraySort(z3.IntSort(), V.sort_of(et)))
+        hk = ("lel", V.sort_key(V.sort_of(et)))
+        s.heap[hk] = z3.Store(self.list_arr(s.heap, r), r.t, new)
+        s.heap[("llen",)] = z3.Store(self.heap_get(s.heap, ("llen",), z3.ArraySort(V.Ref, z3.IntSort())), r.t, n)
+        i, j = z3.Int("ss_i"), z3.Int("ss_j")
+        rng = lambda x: z3.And(0 <= x, x < n)
+        el = lambda x: Val(et, z3.Select(new, x))
+        kt = lambda x: self.key_term(s.heap, el(x))[0]
+        probe_kt, kname = self.key_term(s.heap, el(i))
+        g = z3.Function(V.fresh_name("ss_pos"), probe_kt.sort(), z3.IntSort())
+        s.assume(z3.ForAll([i], z3.Implies(rng(i), z3.And(self.dict_has(s.heap, asdict, el(i)), self.dict_get(s.heap, asdict, el(i)).t == z3.Select(new, i),
+                                                              g(kt(i)) == i))))
+        kv = z3.Const("ss_k", probe_kt.sort())
+        has_arr = z3.Select(self.heap_get(s.heap, ("dhas", kname), z3.ArraySort(V.Ref, z3.ArraySort(probe_kt.sort(), z3.BoolSort()))), src.t)
+        s.assume(z3.ForAll([kv], z3.Implies(z3.Select(has_arr, kv), z3.And(rng(g(kv)), self.key_term(s.heap, el(g(kv)))[0] == kv))))
+        if keyf is not None:
+            key = self.key_term_fn(keyf, et, s, fr, node)
+            rev = reverse is not None and z3.is_true(z3.simplify(self.truth(reverse, s)))
+            if reverse is not None and not rev and not z3.is_false(z3.simplify(self.truth(reverse, s))):
+                raise OutOfSubset("sorted(reverse=<non-constant>)")
+            a, b = (key(z3.Select(new, j)), key(z3.Select(new, i))) if rev else (key(z3.Select(new, i)), key(z3.Select(new, j)))
+            s.assume(z3.ForAll([i, j], z3.Implies(z3.And(0 <= i, i < j, j < n), a <= b)))
+        s.env["$sortedset_pos"] = Val(ANY, None, items=[g])
+        if "A-SORT" not in " ".join(self.notes):
+            self.notes.append("A-SORT: list.sort/sorted = stable sort by key (same length, ordered, permutation, stable, identity on an ordered list)")
+        return self.val(s, r)
+
     def list_of(self, it: Val, st: State, fr: Frame, node) -> List:
         if it.ty.kind == "opt":
             it = V.deopt(it)
@@ -886,6 +934,8 @@ class CallMixin:
         pre_heap_view = st.heap            # same dict object: lazily created initial arrays become visible to `old`
         pre = S.SpecState(self, env, st.heap, st.heap)
         for lbl, f in k.requires_:
+            st.assume(f(pre))
+        for lbl, f in k.defines_:
             st.assume(f(pre))
         self.call_stack = [qual]
         fr = Frame(fi, fi.module, fi.cls)
